@@ -160,3 +160,32 @@ Section Symmetrise.
     rewrite E, norm_sign by exact He. apply T_norm.
   Qed.
 End Symmetrise.
+
+(* ---------- alignment rotations (C02): row vector times Dconj ---------- *)
+Lemma Dconj_factor_right j2 l f alpha beta gamma (z : C) :
+  Cmul z (Dconj j2 l f alpha beta gamma) =
+  Cmul (cos (IZR f / 2 * gamma), sin (IZR f / 2 * gamma))
+       (Cscal (dsmall j2 l f beta) (Cmul (cos (IZR l / 2 * alpha), sin (IZR l / 2 * alpha)) z)).
+Proof.
+  unfold Dconj. rewrite cos_plus, sin_plus. destruct z as [x y]. unfold Cmul, Cscal; simpl. f_equal; ring.
+Qed.
+
+Theorem D_removes_alignment j2 alpha beta gamma (X : Z -> C) :
+  (0 <= j2 <= 8)%Z ->
+  zsum (m_range j2) (fun f => Cnorm2 (D_apply_right j2 alpha beta gamma X f)) = hel_norm2 j2 X.
+Proof.
+  intros Hj. unfold D_apply_right, hel_norm2.
+  set (Y := fun l => Cmul (cos (IZR l / 2 * alpha), sin (IZR l / 2 * alpha)) (X l)).
+  set (M := fun f l => dsmall j2 l f beta).
+  rewrite (zsum_ext (m_range j2) _ (fun f => Cnorm2 (M_apply (m_range j2) M Y f))).
+  2:{ intros f _.
+      rewrite (czsum_ext (m_range j2) _ (fun l => Cmul (cos (IZR f / 2 * gamma), sin (IZR f / 2 * gamma)) (Cscal (M f l) (Y l)))).
+      2:{ intros l _. apply Dconj_factor_right. }
+      rewrite czsum_Cmul_l, Cnorm2_phase. reflexivity. }
+  rewrite (ortho_norm_preserved (m_range j2) M (m_range_nodup j2)).
+  - apply zsum_ext. intros l _. unfold Y. apply Cnorm2_phase.
+  - intros m k Hm Hk. unfold M.
+    pose proof (d_rows_orthonormal j2 m k (cos (beta / 2)) (sin (beta / 2)) Hj Hm Hk) as H.
+    unfold dd_row in H. unfold zsum, dsmall. apply H.
+    pose proof (sin2_cos2 (beta / 2)) as H2. unfold Rsqr in H2. lra.
+Qed.
